@@ -13,7 +13,15 @@ def _module(name):
 
 
 def generate(rng, faults=True, families=None):
-    family = rng.choice(families or (WORLD_FAMILIES + SIM_FAMILIES + ["C18"]))
+    family = rng.choice(families or (WORLD_FAMILIES + SIM_FAMILIES + ["C18", "mixed"]))
+    if family == "mixed":
+        from . import mixed
+        case = mixed.generate(rng, "mixed")
+        case = {"family": family, "scenario": case["scenario"], "plan": [], "config": {},
+                "engine": "world"}
+        if faults:
+            add_faults(case, rng)
+        return case
     try:
         module = _module(family)
     except ModuleNotFoundError:
